@@ -3,7 +3,7 @@
 from typing import Any, Callable, Dict, Iterable, Iterator, List, Optional, Tuple, Union
 
 from . import node
-from .node import ReturnExecNode
+from .node import ReturnExecNode, make_rxn_id
 from .uxn import UsageExecNode
 
 ReturnUXNsType = Union[
@@ -17,7 +17,7 @@ def _wrap_in_iterator_helper(
     l_uxn: List[UsageExecNode] = []
     for i, v in enumerate(r_val):
         if not isinstance(v, UsageExecNode):
-            xn = ReturnExecNode(func, i)
+            xn = ReturnExecNode(make_rxn_id(func, i))
             uxn = UsageExecNode(xn.id)
             l_uxn.append(uxn)
 
@@ -46,7 +46,7 @@ def _wrap_in_dict(func: Callable[..., Any], r_val: Any) -> Optional[Dict[str, Us
     d_uxn: Dict[str, UsageExecNode] = {}
     for k, v in r_val.items():
         if not isinstance(v, UsageExecNode):
-            xn = ReturnExecNode(func, k)
+            xn = ReturnExecNode(make_rxn_id(func, k))
             uxn = UsageExecNode(xn.id)
             d_uxn[k] = uxn
 
@@ -59,7 +59,7 @@ def _wrap_in_dict(func: Callable[..., Any], r_val: Any) -> Optional[Dict[str, Us
 
 def _wrap_in_uxn(func: Callable[..., Any], r_val: Any) -> UsageExecNode:
     if not isinstance(r_val, UsageExecNode):
-        xn = ReturnExecNode(func, 0)
+        xn = ReturnExecNode(make_rxn_id(func, 0))
         node.exec_nodes[xn.id] = xn
         node.results[xn.id] = r_val
         return UsageExecNode(xn.id)
